@@ -9,7 +9,6 @@ import (
 
 	"github.com/titpetric/vuego"
 
-	"verif/internal/ev"
 	"verif/internal/hx"
 	"verif/internal/kf"
 	"verif/internal/memfs"
@@ -235,7 +234,6 @@ func (c CaseA) decoyFill() any {
 	}
 	return decoyS{"decoyfill"}
 }
-
 
 // yamlOf renders "key: value" for a YAML source.
 func yamlOf(key string, v vals.V) string {
@@ -594,8 +592,12 @@ func checkA(c CaseA) error {
 		truthy := !(c.VType == "bool" && want == "false")
 		_, sawT := byID["truthy"]
 		_, sawF := byID["falsy"]
-		if sawT != truthy || sawF == truthy {
-			return fmt.Errorf("render (vif): %s: v-if=%q rendered=%v, v-if=%q rendered=%v, but the chosen value is %s", desc, k, sawT, "!"+k, sawF, want)
+		if sawT != truthy {
+			return fmt.Errorf("render (vif): %s: v-if=%q rendered=%v, but the chosen value is %s", desc, k, sawT, want)
+		}
+		// the negation of a non-boolean is left unasserted (only `!flag` on booleans is documented)
+		if c.VType == "bool" && sawF == truthy {
+			return fmt.Errorf("render (vif): %s: v-if=%q rendered=%v, but the chosen value is %s", desc, "!"+k, sawF, want)
 		}
 	case "attr":
 		if c.VType == "bool" && want == "false" {
@@ -633,8 +635,9 @@ func canon(vt, src string, idx int) vals.V {
 	panic("canon: " + vt)
 }
 
-// enumA enumerates family A and calls f for each case until f returns false.
-func enumA(rec *ev.Rec, f func(CaseA) bool) {
+// enumA enumerates family A and calls f for each case (with the id of the open known finding
+// whose region contains it, "" = none) until f returns false.
+func enumA(f func(c CaseA, excluded string) bool) {
 	known := kf.Load()
 	for mask := 0; mask < 1<<len(order); mask++ {
 		var have []string
@@ -672,11 +675,7 @@ func enumA(rec *ev.Rec, f func(CaseA) bool) {
 									continue // arithmetic on an undefined variable: unspecified, nothing to assert
 								}
 								c := CaseA{Have: have, Vals: vs, VType: vt, Ctor: ctor, Fill: fm[0], Addr: fm[1], Pos: pos, Decoy: decoy}
-								if id := excludedA(known, c); id != "" {
-									rec.Excluded(id)
-									continue
-								}
-								if !f(c) {
+								if !f(c, excludedA(known, c)) {
 									return
 								}
 							}
@@ -723,6 +722,11 @@ func classifyA(c CaseA) (bool, []string) {
 	}
 	if c.Decoy {
 		cls = append(cls, "decoy")
+	}
+	if c.Ctor == "withfs" {
+		cls = append(cls, "ctor=New(WithFS)")
+	} else {
+		cls = append(cls, "ctor=NewFS")
 	}
 	return len(c.Have) >= 2, cls
 }
